@@ -594,6 +594,13 @@ func (h *Hist) final() {
 		if h.O.StoreEveryStep {
 			h.CheckStore("after final reopen")
 		}
+		if h.O.Faults {
+			// nothing scheduled during a failed round may take the good file
+			// away later: close everything, let pending unlinks happen, look again
+			h.CloseAll()
+			time.Sleep(3 * time.Millisecond)
+			h.reopenCopy("after the final close", h.Model, "after an I/O failure earlier in the history, closing the store loses data")
+		}
 	}
 	if h.O.ReadPaths {
 		h.closeHandles()
